@@ -953,6 +953,12 @@ func (c *compiler) compile(in *ast.Program, strict, inGlobal bool, evalVm *vm) {
 	}
 	funcs := c.extractFunctions(in.Body)
 	c.createFunctionBindings(funcs)
+	if ownVarScope {
+		// top-level functions of strict eval code are var-scoped: a var of the same name is not a conflict
+		for _, b := range scope.bindings {
+			b.isVar = true
+		}
+	}
 	numFuncs := len(scope.bindings)
 	if inGlobal && !ownVarScope {
 		if numFuncs == len(funcs) {
